@@ -15,7 +15,8 @@
 (*   active.store          StoreActive(t)                                  *)
 (*   active.load           GetLoadActive(t)    value = the model's flag    *)
 (*   entry.read            GetRead(t)                                      *)
-(*   inflight.load         CountLoad(t)        value = inflight            *)
+(*   inflight.load         CountLoad(t) / SnapCount(t)  value = inflight   *)
+(*   (iteration)           SnapLoadBucket / SnapLoadActive / SnapRead per index*)
 (*   ret <api>             Return(t) / GetReturn(t)  returned index / value / count = the model's*)
 (*   call drop_vec         DropVec                                         *)
 (*                                                                         *)
@@ -26,8 +27,9 @@
 (* operation must be the one of the table the exhaustive model runs with   *)
 (* (Ords), and the invariants of Boxcar.tla - including RaceFree, the      *)
 (* happens-before abstraction - are evaluated on every conforming state.   *)
-(* Operations the model does not describe (snapshot iteration, a panicking *)
-(* fill inside extend) end the validation of that run (counted, not drift).*)
+(* Operations the model does not describe (a fill callback panicking inside *)
+(* extend, snapshot beyond the reserved range) end the validation of that  *)
+(* run (counted, not drift).                                               *)
 (* A line no action accepts is MODEL-DRIFT; the rest of the run is skipped.*)
 (***************************************************************************)
 EXTENDS Boxcar, BoxcarOrd, Json, IOUtils, Integers
@@ -75,13 +77,17 @@ OpOf ==
   ELSE IF Ev.api = "push_panic" THEN [k |-> "pushpanic", v |-> Ev.v]
   ELSE IF Ev.api = "extend" THEN [k |-> "ext", vals |-> Ev.vals, rep |-> Ev.reported]
   ELSE IF Ev.api = "get" THEN [k |-> "get", i |-> Ev.idx]
+  ELSE IF Ev.api = "snapshot" THEN [k |-> "snap", start |-> Ev.start]
   ELSE [k |-> "count"]
 
-Unsupported == Ev.site = "call" /\ Ev.api \in {"snapshot", "extend_panic"}
+\* outside the model: a fill callback that panics in the middle of extend; snapshot(start) beyond the reserved range
+\* (answered by the documented assertion)
+Unsupported == \/ Ev.site = "call" /\ Ev.api = "extend_panic"
+               \/ Ev.site = "atomic" /\ Ev.loc = "inflight" /\ Ev.op = "load" /\ pc[Me] = "s_cnt" /\ Ev.val < lc[Me].idx
 
 ApiCall ==
   /\ Ev.site = "call"
-  /\ \/ /\ Ev.api \in {"push", "push_panic", "extend", "get", "count"}
+  /\ \/ /\ Ev.api \in {"push", "push_panic", "extend", "get", "count", "snapshot"}
         /\ Call(Me, OpOf) /\ KeepCv
      \/ /\ Ev.api = "drop_vec" /\ DropVec /\ KeepCv
   /\ Adv
@@ -95,6 +101,11 @@ ApiRet ==
      \/ /\ Ev.api = "get" /\ pc[Me] = "g_ret"
         /\ IF Ev.res.some THEN Ev.res.v = lc[Me].res ELSE lc[Me].res = 0
         /\ GetReturn(Me)
+     \/ /\ Ev.api = "snapshot" /\ ~Ev.panicked /\ pc[Me] = "ret" /\ Len(Ev.items) = Len(lc[Me].vals)
+        /\ \A k \in 1..Len(Ev.items) :
+              /\ Ev.items[k][1] = lc[Me].vals[k][1]
+              /\ IF Ev.items[k][2].some THEN Ev.items[k][2].v = lc[Me].vals[k][2] ELSE lc[Me].vals[k][2] = 0
+        /\ Return(Me)
      \/ /\ Ev.api = "drop_vec" /\ vecgone /\ UNCHANGED vars
   /\ KeepCv /\ Adv
 
@@ -106,6 +117,12 @@ Atomic ==
         /\ Ev.val = inflight /\ Ev.arg = lc[Me].n /\ OrdIs("fa") /\ FetchAdd(Me)
      \/ /\ Ev.loc = "inflight" /\ Ev.op = "load" /\ pc[Me] = "c_ld" /\ Ev.val = inflight /\ OrdIs("cnt") /\ CountLoad(Me)
      \/ /\ Ev.loc = "inflight" /\ Ev.op = "load" /\ pc[Me] = "idle" /\ Ev.val = inflight /\ OrdIs("cnt") /\ UNCHANGED vars   \* the harness sizing its read-back loop
+     \/ /\ Ev.loc = "inflight" /\ Ev.op = "load" /\ pc[Me] = "s_cnt" /\ Ev.val = inflight /\ OrdIs("cnt") /\ SnapCount(Me)
+     \/ /\ Ev.loc = "inflight" /\ Ev.op = "load" /\ pc[Me] \in {"s_lb", "s_la", "s_rd"} /\ Ev.ord = "rlx" /\ UNCHANGED vars   \* debug assertion of Iter::next
+     \/ /\ Ev.loc = "bucket" /\ Ev.op = "load" /\ pc[Me] = "s_lb"
+        /\ Ev.b = lc[Me].b /\ (Ev.val = 0) = (bptr[Ev.b] = 0) /\ OrdIs("lb_get") /\ SnapLoadBucket(Me)
+     \/ /\ Ev.loc = "active" /\ Ev.op = "load" /\ pc[Me] = "s_la" /\ Ev.i = lc[Me].idx
+        /\ (Ev.val = 1) = ent[lc[Me].idx].active /\ OrdIs("la_get") /\ SnapLoadActive(Me)
      \/ /\ Ev.loc = "bucket" /\ Ev.op = "load" /\ pc[Me] = "lb"
         /\ Ev.b = BucketOf(Cur(Me)) /\ (Ev.val = 0) = (bptr[Ev.b] = 0) /\ OrdIs("lb_push") /\ LoadBucket(Me)
      \/ /\ Ev.loc = "bucket" /\ Ev.op = "load" /\ pc[Me] = "g_lb"
@@ -123,6 +140,7 @@ Hook ==
   /\ \/ /\ Ev.site = "bucket.alloc" /\ pc[Me] = "alloc" /\ Ev.b = lc[Me].b /\ Alloc(Me)
      \/ /\ Ev.site = "entry.write" /\ pc[Me] = "ws" /\ Ev.i = Cur(Me) /\ WriteSlot(Me)
      \/ /\ Ev.site = "entry.read" /\ pc[Me] = "g_rd" /\ Ev.i = lc[Me].idx /\ GetRead(Me)
+     \/ /\ Ev.site = "entry.read" /\ pc[Me] = "s_rd" /\ Ev.i = lc[Me].idx /\ SnapRead(Me)
      \/ /\ Ev.site = "bucket.dealloc" /\ UNCHANGED vars          \* the loser of the race frees its allocation; Drop for Vec
      \/ /\ Ev.site = "entry.drop" /\ UNCHANGED vars
      \/ /\ Ev.site = "joined" /\ (\A t \in Threads : pc[t] = "idle")
@@ -173,5 +191,5 @@ TraceInit ==
 Finished == l > Len(T) /\ PrintT(ToJson([ev |-> "DONE", stat |-> cstat, lines |-> Len(T)])) /\ UNCHANGED allvars
 TNext == TraceNext \/ Finished
 
-ConformInv == mode = "run" => (NoBad /\ ActiveWritten /\ DistinctIndices /\ RaceFree /\ DroppedOnce /\ NoDropWhileAlive)
+ConformInv == mode = "run" => (NoBad /\ ActiveWritten /\ DistinctIndices /\ SnapshotsExact /\ RaceFree /\ DroppedOnce /\ NoDropWhileAlive)
 =============================================================================
